@@ -282,6 +282,9 @@ def run(tree, rep, tier):
     r4c(tree, rep)
     observers_terminated(tree, rep)
     r5_observers(tree, rep)
+    from .C03 import observer_handoff_atomic, eventual_turn_isolates_calls
+    observer_handoff_atomic(tree, rep, "C18.R6")
+    eventual_turn_isolates_calls(tree, rep, "C18.R6")
     r1(tree, rep, tier)
 
 
